@@ -5,7 +5,9 @@ Real side: real files of sizes straddling the 1 MiB read chunk x every algorithm
 successive `fo.read()` calls compared with the model's chunk trace (correspondence); relative paths with redundant
 components through `Checksums.add`; real TreeInfo loads of a minimal valid tree plus a `[checksums]` section mixing
 typed and bare entries of recognised / unrecognised lengths in every order; write+read of tables; `add_checksum`
-sequences with equal / different / empty values.
+sequences with equal / different / empty values.  Op `hash`: the modelled hash objects (md5/sha1/sha2 of Model/HashMD.lean run through the
+code's chunk loop, a loop of any chunk size, or arbitrary chunk sizes) vs hashlib one-shot, hashlib fed the same chunks and
+`compute_checksum` on a real file, on every padding boundary, chunk size -1/+0/+1/x2, random / sparse / text-like contents.
 """
 import builtins, hashlib, itertools, json, os, posixpath, random, re, shutil, tempfile
 import checklib
@@ -35,6 +37,60 @@ def errname(e):
 
 def content_of(size, salt=0):
     return random.Random(size * 7919 + salt).randbytes(size)
+
+
+# ---- the modelled hash objects (Model/HashMD.lean): what the driver op `hash_digest` knows by name
+MODELLED = ["md5", "sha1", "sha224", "sha256", "sha384", "sha512"]
+BLOCK = {"md5": 64, "sha1": 64, "sha224": 64, "sha256": 64, "sha384": 128, "sha512": 128}
+# padding boundaries of 64- and 128-byte blocks (length field 8 / 16 bytes): 55|56, 63|64, 111|112, 119|120, 127|128
+BOUNDARY = [0, 1, 55, 56, 57, 63, 64, 65, 111, 112, 119, 120, 127, 128, 129]
+BIG = 1 << 16            # above: content = a 4093-byte random pattern repeated (cheap to hand to the driver)
+PATTERN = 4093
+
+
+def hash_content(length, salt, kind="random"):
+    """-> (bytes, driver content spec).  kinds: random bytes; zeros (a sparse file: every chunk equal to the previous one);
+    text (lines ending in CR LF / LF, trailing newline and blanks: what a text-mode read or a strip() would change)"""
+    if kind == "zeros":
+        return b"\0" * length, {"hex": "00", "repeat": length}
+    if kind == "text":
+        unit = b"line one\r\nline two \n\ttab\r\n\n\x1a\xc3\xa9 \n"
+        rep = length // len(unit)
+        tail = (b"\r\n \n" * len(unit))[:length - rep * len(unit)]
+        return unit * rep + tail, {"hex": unit.hex(), "repeat": rep, "tail_hex": tail.hex()}
+    if length <= BIG:
+        data = random.Random("h-%d-%d" % (length, salt)).randbytes(length)
+        return data, {"hex": data.hex()}
+    pat = random.Random("p-%d-%d" % (length, salt)).randbytes(PATTERN)
+    rep = length // PATTERN
+    tail = pat[:length - rep * PATTERN]
+    return pat * rep + tail, {"hex": pat.hex(), "repeat": rep, "tail_hex": tail.hex()}
+
+
+def feed(h, data, chunking):
+    """a hashlib object fed the way the chunking says; -> number of update() calls"""
+    mode, n_upd = chunking["mode"], 0
+    if mode == "loop":                       # the library's loop shape over an in-memory file, chunk size n
+        import io
+        fo = io.BytesIO(data)
+        while True:
+            chunk = fo.read(chunking["n"])
+            if not chunk:
+                break
+            h.update(chunk)
+            n_upd += 1
+    elif mode == "sizes":
+        pos = 0
+        for k in chunking["sizes"]:
+            h.update(data[pos:pos + k])
+            pos += k
+            n_upd += 1
+        h.update(data[pos:])
+        n_upd += 1
+    else:
+        h.update(data)
+        n_upd = 1
+    return n_upd
 
 
 class ReadSpy(object):
@@ -106,9 +162,15 @@ class C16(Prop):
             "hashlib, each file hashed twice with a content change in between (same size and mtime / new mtime / new size), read sizes "
             "vs the model's trace; add (incl. x/../ over real, symlinked and missing directories): relative paths with ./ // x/../ (and absolute ones) with and without a given "
             "value; sections: typed/bare entries of lengths 31..65 in every order loaded by the real TreeInfo; tables written and read "
-            "back; add_checksum sequences over mixed-case / same-name-two-spellings type names; non-trivial = distinct case")
-    assumptions = ["hashlib objects satisfy update(a); update(b) == update(a+b) and update(b'') is the identity (hypotheses of C16_chunked; "
-                   "exercised by every digest case)",
+            "back; add_checksum sequences over mixed-case / same-name-two-spellings type names; hash: md5/sha1/sha224/sha256/sha384/sha512 "
+            "of the MODEL (block-buffered absorber run through the code's chunk loop, a loop of any chunk size, or arbitrary chunk sizes) vs "
+            "hashlib one-shot, hashlib fed the same chunks and compute_checksum on a real file, lengths on every padding boundary "
+            "(0,1,55..57,63..65,111,112,119,120,127..129), chunk size -1/+0/+1/x2 (incl. the code's 1 MiB) and random; non-trivial = distinct case")
+    assumptions = ["hashlib: md5, sha1, sha224, sha256, sha384, sha512 are MODELLED (Model/HashMD.lean, streaming law PROVED for every block-buffered "
+                   "hash in Proofs/HashMD.lean) and compared with hashlib.new(name) on every run (op 'hash'); for the other names hashlib offers "
+                   "(sha3_*, blake2*, sm3, ripemd160, ...) the generic theorem C16_chunked_md applies to any hash of the block-buffered shape with "
+                   "the compression/finalisation functions left abstract - that a given OpenSSL algorithm HAS this shape is not proved, it is "
+                   "exercised by the digest cases (library on real files vs one-shot hashlib, every algorithm usable by name)",
                    "the INI layer delivers the [checksums] section as (path, raw value) pairs; the model is fed parser.items() of the "
                    "real parser on the same text"]
     partial = {}
@@ -164,6 +226,9 @@ class C16(Prop):
                 seen.add((s, a))
                 yield {"op": "digest", "args": {"size": s, "algo": a, "via": "add" if (s + len(a)) % 3 == 0 else "compute",
                                                 "change": ["same-size-same-mtime", "same-size-same-mtime", "same-size-new-mtime", "new-size"][len(seen) % 4]}}
+        # 1c. the MODELLED hash objects: model (chunk loop over the block-buffered absorber) vs hashlib vs the library on a real file
+        for c in self.hash_cases(rng, tier, budget):
+            yield c
         # 2b. `x/../` where x is a real directory / a symlink to a directory elsewhere / missing; digest always computed
         templates = [("images/%s/../boot.iso", 1), ("%s/../a/Z.img", 1), ("a/%s/../b/%s/../Z.img", 2), ("./%s/..//images/./%s/../initrd.img", 2),
                      ("a/b/%s/../../c", 1), ("%s/../%s/../top.img", 2)]
@@ -307,6 +372,65 @@ class C16(Prop):
             initial = [[t, rng.choice(vals[:3])] for t in rng.sample(sorted(set(x.lower() for x in pool)), rng.randint(0, min(2, len(set(x.lower() for x in pool)))))]
             yield {"op": "add_checksum_seq", "args": {"initial": initial, "ops": ops}}
 
+    def hash_cases(self, rng, tier, budget):
+        chunk = int(self.gen().get("checksums", {}).get("chunk_size", MIB)) if isinstance(self.gen().get("checksums"), dict) else MIB
+        if chunk <= 0:
+            chunk = MIB
+
+        def chunking(length):
+            k = rng.randrange(4)
+            if k == 0:
+                return {"mode": "code"}
+            if k == 1:
+                return {"mode": "loop", "n": rng.choice([1, 2, 7, 55, 56, 63, 64, 65, 100, 127, 128, 129, 1000, max(1, length - 1), length + 1, max(1, length)])}
+            sizes, left = [], length
+            while left > 0 and len(sizes) < 12:
+                k = rng.choice([0, 1, 3, 63, 64, 65, 128, rng.randint(0, max(1, left)), rng.randint(0, 200)])
+                sizes.append(k)
+                left -= k
+            if rng.random() < 0.3:
+                sizes.append(rng.randint(0, 70))          # sizes running past the end: empty chunks
+            return {"mode": "sizes", "sizes": sizes}
+        n = 0
+        # every modelled algorithm x every padding boundary: once through the code's loop (real file), once through another chunking
+        for alg in MODELLED:
+            for length in BOUNDARY:
+                n += 1
+                yield {"op": "hash", "args": {"alg": alg, "length": length, "salt": n % 3, "chunking": {"mode": "code"}}}
+                ch = chunking(length)
+                if ch["mode"] == "code":
+                    ch = {"mode": "loop", "n": [1, 63, 64, 65, 128][n % 5]}
+                yield {"op": "hash", "args": {"alg": alg, "length": length, "salt": n % 3, "chunking": ch}}
+        # chunk size -1 / +0 / +1 / x2 (+1) for small chunk sizes, through the loop shape of the code
+        for alg in MODELLED:
+            for cs in ([64, 100] if tier == "quick" else [1, 2, 63, 64, 65, 100, 128, 1000, 4096]):
+                for length in (cs - 1, cs, cs + 1, 2 * cs - 1, 2 * cs, 2 * cs + 1):
+                    yield {"op": "hash", "args": {"alg": alg, "length": length, "salt": 1, "chunking": {"mode": "loop", "n": cs}}}
+        # ... and for the code's own chunk size (real files of 1 MiB -1/+0/+1, 2 MiB) through the code's loop
+        big_algs = ["md5", "sha1", "sha256"] if tier == "quick" else MODELLED
+        for alg in big_algs:
+            for length in (chunk - 1, chunk, chunk + 1, 2 * chunk):
+                yield {"op": "hash", "args": {"alg": alg, "length": length, "salt": 2, "chunking": {"mode": "code"}}}
+        if tier == "quick":
+            for alg in ("sha224", "sha384", "sha512"):
+                yield {"op": "hash", "args": {"alg": alg, "length": chunk + 1, "salt": 2, "chunking": {"mode": "code"}}}
+        # sparse files (consecutive chunks identical) and text-like files (CR LF, trailing newline/blank, ^Z) through the code's loop and others
+        for i, alg in enumerate(MODELLED if tier != "quick" else ["md5", "sha256", "sha512"]):
+            yield {"op": "hash", "args": {"alg": alg, "length": [2 * chunk, 3 * chunk + 5, 2 * chunk + 1][i % 3], "salt": 0, "kind": "zeros", "chunking": {"mode": "code"}}}
+        for alg in MODELLED:
+            for length in (1, 2, 3, 41, 64, 130, 1000):
+                yield {"op": "hash", "args": {"alg": alg, "length": length, "salt": 0, "kind": "text", "chunking": {"mode": "code"}}}
+            yield {"op": "hash", "args": {"alg": alg, "length": rng.randrange(100, 3000), "salt": 0, "kind": rng.choice(["text", "zeros"]), "chunking": chunking(100)}}
+        yield {"op": "hash", "args": {"alg": "sha1", "length": chunk + 2, "salt": 0, "kind": "text", "chunking": {"mode": "code"}}}
+        # the same name in other letter cases (hashlib.new / OpenSSL accept them)
+        for alg in ("SHA256", "Md5", "SHA1", "Sha512"):
+            if self.algo_ok(alg):
+                yield {"op": "hash", "args": {"alg": alg, "length": 129, "salt": 0, "chunking": {"mode": "code"}}}
+        # random contents, lengths and chunkings
+        for _ in range(max(90, budget // 8) if tier == "quick" else max(600, budget // 6)):
+            length = rng.choice([rng.randrange(0, 300), rng.randrange(0, 5000), rng.choice(BOUNDARY) + 128 * rng.randrange(0, 20)])
+            yield {"op": "hash", "args": {"alg": rng.choice(MODELLED), "length": length, "salt": rng.randrange(1000), "chunking": chunking(length)}}
+
     # ------------------------------------------------------------------ real side
     def real(self, case):
         checklib.use_repo()
@@ -352,6 +476,23 @@ class C16(Prop):
             finally:
                 shutil.rmtree(d, ignore_errors=True)
             return {"rounds": rounds, "digest": rounds[0]["digest"], "expected": rounds[0]["expected"], "reads": rounds[0]["reads"]}
+        if op == "hash":
+            data, _ = hash_content(a["length"], a["salt"], a.get("kind", "random"))
+            one = hashlib.new(a["alg"], data).hexdigest()
+            h = hashlib.new(a["alg"])
+            n_upd = feed(h, data, a["chunking"])
+            d = tempfile.mkdtemp(prefix="c16h-", dir=self.workdir())
+            path = os.path.join(d, "blob")
+            try:
+                with open(path, "wb") as f:
+                    f.write(data)
+                try:
+                    lib = T.compute_checksum(path, a["alg"])
+                except Exception as e:
+                    lib = {"err": errname(e)}
+            finally:
+                shutil.rmtree(d, ignore_errors=True)
+            return {"oneshot": one, "fed": h.hexdigest(), "updates": n_upd, "lib": lib, "length": len(data)}
         if op == "add":
             root = tempfile.mkdtemp(prefix="c16r-", dir=self.workdir())
             ti = T.TreeInfo()
@@ -498,6 +639,9 @@ class C16(Prop):
         op, a = case["op"], case["args"]
         if op == "digest":
             return [{"op": "ck_read_trace", "args": {"size": rd["size"]}} for rd in self._last["rounds"]]
+        if op == "hash":
+            _, spec = hash_content(a["length"], a["salt"], a.get("kind", "random"))
+            return [{"op": "hash_digest", "args": dict(spec, alg=a["alg"], chunking=a["chunking"], oneshot=a["length"] <= BIG)}]
         if op == "add":
             r = self._last
             dg = {"ok": r["expected_digest"]} if r.get("expected_digest") is not None else {"err": "Other" if a["type"] != "no-such-algo" else "ValueError"}
@@ -534,6 +678,18 @@ class C16(Prop):
                     continue
                 if rd["reads"] != m:
                     return {"real": {"round": i, "reads": rd["reads"]}, "model": {"round": i, "reads": m}}
+            return None
+        if op == "hash":
+            m = outs[0]
+            # the model's chunk loop vs: the library on the real file (the code's loop) / hashlib fed the same chunks
+            want = real_out["lib"] if a["chunking"]["mode"] == "code" else real_out["fed"]
+            rv = {"digest": want, "oneshot": real_out["oneshot"], "length": real_out["length"]}
+            if "err" in m:
+                mv = m
+            else:
+                mv = {"digest": m["digest"], "oneshot": m["oneshot"] if a["length"] <= BIG else real_out["oneshot"], "length": m["length"]}
+            if rv != mv:
+                return {"real": rv, "model": mv}
             return None
         if op == "add":
             m = outs[0]
@@ -596,6 +752,14 @@ class C16(Prop):
                     return {"observed": {"round": i, "digest": rd["digest"], "reads": rd["reads"], "size": rd["size"], "algo": a["algo"],
                                          "first_round_digest": r["rounds"][0]["digest"]},
                             "required": {"digest": rd["expected"], "what": what}, "kind": "wrong-digest" if i == 0 else "stale-digest"}
+            return None
+        if op == "hash":
+            if r["lib"] != r["oneshot"]:
+                return {"observed": {"digest": r["lib"], "algo": a["alg"], "size": r["length"]},
+                        "required": {"digest": r["oneshot"], "what": "hashlib.new(algo, whole content).hexdigest()"}, "kind": "wrong-digest"}
+            if r["fed"] != r["oneshot"]:             # hashlib itself: chunks fed one by one vs at once (the law PROVED of the model)
+                return {"observed": {"fed_in_chunks": r["fed"], "chunking": a["chunking"], "algo": a["alg"]},
+                        "required": {"digest": r["oneshot"], "what": "update(a); update(b) == update(a + b)"}, "kind": "hashlib-streaming"}
             return None
         if op == "add":
             if a["path"].startswith("/"):
@@ -694,6 +858,20 @@ class C16(Prop):
             dist.setdefault("algorithms", [])
             if case["args"]["algo"] not in dist["algorithms"]:
                 dist["algorithms"].append(case["args"]["algo"])
+        elif op == "hash":
+            a = case["args"]
+            bs = BLOCK.get(a["alg"].lower(), 64)
+            for k in ("hash alg:" + a["alg"], "hash chunking:" + a["chunking"]["mode"],
+                      "hash length: %s" % ("0" if a["length"] == 0 else "< 1 block" if a["length"] < bs else "code's chunk size -1 and above" if a["length"] >= MIB - 1
+                                           else "multiple of the block" if a["length"] % bs == 0 else "several blocks + rest"),
+                      "hash padding: %s" % ("second block needed" if a["length"] % bs >= bs - bs // 8 else "fits"),
+                      "hash updates: %s" % ("1" if r["updates"] == 1 else "2-9" if r["updates"] < 10 else "10+")):
+                dist[k] = dist.get(k, 0) + 1
+            dist["hash content:" + a.get("kind", "random")] = dist.get("hash content:" + a.get("kind", "random"), 0) + 1
+            if a["length"] in BOUNDARY:
+                dist.setdefault("hash boundary lengths", [])
+                if a["length"] not in dist["hash boundary lengths"]:
+                    dist["hash boundary lengths"] = sorted(dist["hash boundary lengths"] + [a["length"]])
         elif op in ("load_section", "roundtrip"):
             res = r.get("result", {})
             k = "%s %s" % (op, "ok" if "ok" in res else "ini-error" if "ini_error" in r else "err:" + str(res.get("err")))
@@ -713,6 +891,10 @@ class C16(Prop):
         if op == "add_checksum_seq" and len(a["ops"]) > 1:
             for i in range(len(a["ops"])):
                 c = json.loads(json.dumps(case)); del c["args"]["ops"][i]; out.append(c)
+        if op == "hash":
+            for L in (0, 1, a["length"] // 2, a["length"] - 1):
+                if 0 <= L < a["length"]:
+                    c = json.loads(json.dumps(case)); c["args"]["length"] = L; out.append(c)
         if op == "roundtrip" and len(a["table"]) > 1:
             for i in range(len(a["table"])):
                 c = json.loads(json.dumps(case)); del c["args"]["table"][i]; out.append(c)
@@ -724,7 +906,7 @@ C16.real = C16.real_and_stash
 PROP = C16()
 
 MANIFEST = dict(
-    technique="Lean 4 proofs by induction (read loop over an abstract streaming hash, POSIX normpath, dict-assignment loop of the section reader, add_checksum histories) + decide on constants regenerated from the AST; differential run on real files, real TreeInfo loads and real Image objects",
-    text="C16_chunked/C16_compute: for an abstract streaming hash with the concatenation law, ANY content and ANY chunk size > 0 the read-until-empty loop returns the one-shot digest (chunk size and loop shape come from the source). C16_add/_absolute/_refusal/_invariant: the key is normpath(path), never absolute; absolute paths and failures leave the table alone. C16_pointwise: if a [checksums] section loads, every path maps to `typed` of ITS OWN raw value (type:value, or a bare digest typed by length 32/40/64, anything else rejected). C16_add_computes: add without a value records the one-shot digest of the full content of root/normpath(path). C16_roundtrip: write then read is the identity on tables free of ':'; C16_roundtrip_refuses: a table with ':' in a type or value is refused on read, never read as something else. C16_pointwise_legacy: the same pointwise reading for header-less files with relative keys. C16_image_monotone: over any add_checksum history a recorded value never changes.",
-    note="hashlib itself and the INI reader are not modelled (streaming law as explicit hypothesis; the section is an association list fed from the real parser). Legacy header-less path rewriting (_fix_path) is modelled and compared but not part of the pointwise theorem.",
+    technique="Lean 4 proofs by induction (block-buffered hash objects: streaming law for every block size and compression function; executable md5/sha1/sha2; read loop over them and over an abstract streaming hash, POSIX normpath, dict-assignment loop of the section reader, add_checksum histories) + decide on constants regenerated from the AST; differential run on real files, real TreeInfo loads and real Image objects",
+    text="C16_chunked/C16_compute: for an abstract streaming hash with the concatenation law, ANY content and ANY chunk size > 0 the read-until-empty loop returns the one-shot digest (chunk size and loop shape come from the source). C16_streaming_md/C16_chunked_md/C16_any_chunking_md/C16_compute_md: hashlib objects MODELLED as block-buffered absorbers (chaining value, pending bytes, length; update compresses complete blocks, digest pads and finalises) - update(update h a) b = update h (a++b) and update h [] = h PROVED for every block size > 0 and every compression function, hence the code's loop (any chunk size, any chunking) returns the one-shot digest with NO hypothesis about the hash; C16_chunked_md5/_sha1/_sha224/_sha256/_sha384/_sha512, C16_compute_by_name: the same for the executable md5/sha1/sha2 instances (test vectors checked by the kernel: C16_test_vectors; compared with hashlib on every run); C16_add_computes_md / C16_add_computes_by_name: add without a value records that digest (by name: the digest of the algorithm the type names); C16_md_padding: for every pending buffer and length the Merkle-Damgard padding is the smallest whole number of blocks holding pending + 0x80 + length and is compressed completely; C16_oneshot_md: the one-shot digest = all complete blocks compressed in order, length mod blockSize bytes and the total length given to the finaliser. C16_add/_absolute/_refusal/_invariant: the key is normpath(path), never absolute; absolute paths and failures leave the table alone. C16_pointwise: if a [checksums] section loads, every path maps to `typed` of ITS OWN raw value (type:value, or a bare digest typed by length 32/40/64, anything else rejected). C16_add_computes: add without a value records the one-shot digest of the full content of root/normpath(path). C16_roundtrip: write then read is the identity on tables free of ':'; C16_roundtrip_refuses: a table with ':' in a type or value is refused on read, never read as something else. C16_pointwise_legacy: the same pointwise reading for header-less files with relative keys. C16_image_monotone: over any add_checksum history a recorded value never changes.",
+    note="hashlib: md5/sha1/sha224/sha256/sha384/sha512 are modelled and compared with hashlib.new(name) (one-shot, fed in chunks, and through compute_checksum on real files); for other algorithm names the generic block-buffered theorem applies with the compression function abstract (that OpenSSL's sha3/blake2/... have this shape is exercised on real files, not proved). The INI reader is not modelled here (the section is an association list fed from the real parser). Legacy header-less path rewriting (_fix_path) is modelled and compared but not part of the pointwise theorem.",
     ref="7/C16")
